@@ -111,8 +111,27 @@ fn state_params(g: &mut Sm, group: &str, radius: f64, stream: u64) -> String {
     };
     // cells loaded from a file may have a side ratio above one
     let ratio = if stream == 2 && g.chance(0.25) { *g.pick(&[1.5, 2., 3., 1.0000001]) } else { ratio };
+    // three occupied sites in a sheared cell: two of them close together (around contact), the third between them
+    // in fractional x but far away in y - the orders "along x" in fractional and in Cartesian coordinates differ
+    if mono && stream != 2 && g.chance(0.04) {
+        let angle = *g.pick(&[PI / 6., PI / 4., PI / 3., 1.0, 0.7]);
+        let len = g.range(8., 14.) * radius;
+        let u = g.range(-0.45, 0.3);
+        let v = g.range(-0.3, 0.3);
+        let d = 2. * radius * g.range(0.5, 1.5) / len;        // S1-S3 distance: 0.5 .. 1.5 contact distances
+        let dirn = g.range(0., 2. * PI);
+        let (x3, y3) = (u + d * dirn.cos().abs().max(0.2), v + 0.3 * d * dirn.sin());
+        let (x2, y2) = ((u + x3) / 2., if v > 0. { v - g.range(0.35, 0.5) } else { v + g.range(0.35, 0.5) });
+        return format!(
+            "len={} ratio={} angle={} x={} y={} phi={} k={} zero={} idx={} x2={} y2={} phi2={} x3={} y3={} phi3={}",
+            fmt_f(len), fmt_f(*g.pick(&[1., 0.9, 0.8])), fmt_f(angle), fmt_f(u), fmt_f(v), fmt_f(g.range(0., 2. * PI)), g.below(4), g.below(2), g.below(4),
+            fmt_f(x2), fmt_f(y2), fmt_f(g.range(0., 2. * PI)), fmt_f(x3), fmt_f(y3), fmt_f(g.range(0., 2. * PI)));
+    }
     let second = if g.chance(0.12) {
-        format!(" x2={} y2={} phi2={}", fmt_f(g.range(-0.5, 0.5)), fmt_f(g.range(-0.5, 0.5)), fmt_f(g.range(0., 2. * PI)))
+        let third = if g.chance(0.3) {
+            format!(" x3={} y3={} phi3={}", fmt_f(g.range(-0.5, 0.5)), fmt_f(g.range(-0.5, 0.5)), fmt_f(g.range(0., 2. * PI)))
+        } else { String::new() };
+        format!(" x2={} y2={} phi2={}{}", fmt_f(g.range(-0.5, 0.5)), fmt_f(g.range(-0.5, 0.5)), fmt_f(g.range(0., 2. * PI)), third)
     } else { String::new() };
     format!(
         "len={} ratio={} angle={} x={} y={} phi={} k={} zero={} idx={}{}",
@@ -415,6 +434,17 @@ pub fn gen(focus: &str, seed: u64, count: u64) -> Vec<String> {
             else if pick < 12 { set(&body, Some(PI / 2.), Some(1.), Some("Tetragonal")) }
             else if pick < 18 && focus == "C14" { let a = g.range(PI / 6., 2.6); set(&body, Some(a), None, None) }
             else { body }
+        } else { body };
+        // states whose sites carry another rotation count (a field only a file can set; nothing may depend on it)
+        let body = if (focus == "C08" || focus == "C15" || focus == "C11" || focus == "C04") && body.contains(" len=") && !body.contains("mode=") && g.chance(0.06) {
+            format!("{} rots={}", body, *g.pick(&[0u64, 0, 2, 3, 7]))
+        } else { body };
+        // C11: structures at very small and very large length scales (what is written must be the structure, not a tidied one)
+        let body = if focus == "C11" && body.contains(" len=") && !body.contains("mode=") && g.chance(0.08) {
+            let k = *g.pick(&[1e-13, 1e-20, 1e-30, 1e-6, 1e10, 1e30]);
+            body.split(' ').map(|t| {
+                if let Some(v) = t.strip_prefix("len=") { format!("len={}", fmt_f(parse_f(v) * k)) } else { t.to_string() }
+            }).collect::<Vec<_>>().join(" ")
         } else { body };
         // C11: values that came from single precision (every digit of them must survive the JSON text)
         let body = if focus == "C11" && g.chance(0.3) {
